@@ -416,3 +416,68 @@ def builder_method_cases(repo: Repo, rep: Report, rule: str) -> None:
             shown = {k: ("Field of " + next((c.__name__ for c in cls.__mro__ if getattr(c, F, {}).get(k) is v or c.__dict__.get(k) is v), "?")) for k, v in got[1].items()} if got[0] == "value" and isinstance(got[1], dict) else got
             rep.violation(rule, construct, inst, f"evaluates to {_show(shown)}; dataclasses' own rule gives the fields {sorted(want)} with the Field object of the nearest declaring ancestor", actual=_show(shown), reference=str(sorted(want)))
     rep.floor(rule, 5)
+
+
+# --------------------------------------------------------------------------- CodeBuilder.get_real_type on a stub builder
+@dataclasses.dataclass
+class _RG(typing.Generic[T]):
+    x: typing.List[T]
+    y: int = 0
+
+
+@dataclasses.dataclass
+class _RH(_RG[int]):
+    w: str = ""
+
+
+@dataclasses.dataclass
+class _RP(typing.Generic[T, S]):
+    a: T
+    b: S
+
+
+@dataclasses.dataclass
+class _RQ(_RP[S, int], typing.Generic[S]):
+    c: S
+
+
+def real_type_cases(repo: Repo, rep: Report, rule: str) -> None:
+    """CodeBuilder.get_real_type(name, type) -- the type every registry dispatches on -- substitutes the type parameters
+    *of the class that defines the field* (resolved through the bases), not those of the class being compiled: in
+    ``class Q(P[S, int], Generic[S])`` the inherited field ``b: S`` (P's S) is ``int`` while Q's own ``c: S`` is the argument of Q."""
+    import types as _t
+    from .srcmodel import M_BUILDER
+
+    te = TypeEval(repo)
+    resolve = te.func(M_HELPERS, "resolve_type_params")
+    grt = te.method(M_BUILDER, "CodeBuilder", "get_real_type")
+    gfc = te.method(M_BUILDER, "CodeBuilder", "_get_field_class")
+    construct = f"{M_BUILDER}::CodeBuilder.get_real_type"
+    D = datetime
+    cases = [
+        ("G[date].x: List[T]", _RG, (D.date,), "x", typing.List[T], typing.List[D.date]),
+        ("G[date].y: int", _RG, (D.date,), "y", int, int),
+        ("G (bare).x: List[T]", _RG, (), "x", typing.List[T], typing.List[T]),
+        ("H(G[int]).x: List[T] (inherited)", _RH, (), "x", typing.List[T], typing.List[int]),
+        ("H(G[int]).w: str (own)", _RH, (), "w", str, str),
+        ("Q[str].a: T (P's T = Q's S)", _RQ, (str,), "a", T, str),
+        ("Q[str].b: S (P's S = int)", _RQ, (str,), "b", S, int),
+        ("Q[str].c: S (Q's own S)", _RQ, (str,), "c", S, str),
+        ("Q[str].c: Dict[S, List[S]]", _RQ, (str,), "c", typing.Dict[S, typing.List[S]], typing.Dict[str, typing.List[str]]),
+    ]
+    for label, cls, targs, fname, ftype, want in cases:
+        r = evaluate(te, resolve, cls, targs)
+        if r[0] != "value":
+            rep.undecide(rule, f"{label}: resolve_type_params -> {r}")
+            continue
+        stub = _t.SimpleNamespace(cls=cls, field_classes={}, resolved_type_params=r[1])
+        stub._get_field_class = lambda name, _s=stub: gfc(_s, name)
+        got = evaluate(te, grt, stub, fname, ftype)
+        inst = f"get_real_type of {label}"
+        if got[0] == "unsupported":
+            rep.undecide(rule, f"{inst}: {got[1]}")
+        elif got[0] == "value" and _same(got[1], want):
+            rep.ok(rule, inst, {"result": _show(got[1])})
+        else:
+            rep.violation(rule, construct, inst, f"evaluates to {_show(got)}; the field's type in this specialisation is {_show(want)}", actual=_show(got), reference=_show(want))
+    rep.floor(rule, 8)
